@@ -491,7 +491,9 @@ def gen_flags_case(rng):
         r = rng.random()
         typ = 'sdp.flags' if r < 0.7 else rng.choice(['sdp.vis', 'sdp.cal', None])
         r = rng.random()
-        src = ['l0'] if r < 0.6 else rng.choice([['other'], ['other', 'l0'], None, []])
+        # a source whose name merely contains the opened stream's name (l0_continuum for l0) is another stream
+        src = ['l0'] if r < 0.5 else rng.choice([['other'], ['other', 'l0'], None, [], ['l0_continuum'], ['xl0', 'other'],
+                                                 ['l0_continuum']])
         r = rng.random()
         if r < 0.72:
             f2, b2 = F, B
